@@ -673,6 +673,15 @@ class ProgGen:
                     items.append(("code", ind, "@deco", None))
                 items.append(("code", ind, f"def {self.name()}({r.choice(['', 'a', 'a, b=1', '*args'])}):", None))
                 items.append(("doc", sub))
+                if self.shapes and r.random() < 0.08:
+                    self.used.add("docstring-with-hint")
+                    items.append(("code", sub, r.choice(['"""d"""', "'d'"]), r.choice(["foo", "-bar"])))
+                if self.shapes and r.random() < 0.05:
+                    self.used.add("one-line-def-docstring")
+                    items.append(("code", sub, f'def {self.name()}(): "d"', None))
+                if self.shapes and r.random() < 0.04:
+                    self.used.add("pass-semicolon-pass")
+                    items.append(("code", sub, "pass; pass", None))
                 items += self.block(sub, depth + 1, True, False)
             elif x < 0.97:
                 items.append(("code", ind, f"class {self.name().title()}{r.choice(['', '(Base)'])}:", None))
@@ -694,7 +703,12 @@ class ProgGen:
         items = [("doc", 0)]
         if self.shapes and r.random() < 0.08:
             self.used.add("first-line-hint")
-            items = [("hint", 0, r.choice(["foo", "-bar"]))] + items if r.random() < 0.5 else items + [("hint", 0, "foo")]
+            if r.random() < 0.4:
+                self.used.add("first-line-embedded-marker")
+                h = ("raw", 0, r.choice(["# x # paroxython: foo", "## paroxython: bar", "#!x #paroxython: foo", "# a # b #  Paroxython : foo"]))
+            else:
+                h = ("hint", 0, r.choice(["foo", "-bar"]))
+            items = [h] + items if r.random() < 0.5 else items + [h]
         if r.random() < 0.15:
             items.append(("code", 0, '__import__("sys").path[0:0] = ["programs"]', None))
         items += self.block(0, 0, n=r.randrange(1, 5))
@@ -773,10 +787,19 @@ class ProgGen:
             if it[0] == "doc":
                 if level > 0 and r.random() < 0.6:
                     lines += self.noise_lines(it[1], level * 0.5)
-                    d = r.choice(['"""Doc."""', "'d'", '"""Lorem.\n\n    Ipsum.\n    """', 'r"""raw"""', '"a" "b"' if False else '"""x"""'])
+                    d = r.choice(['"""Doc."""', "'d'", '"""Lorem.\n\n    Ipsum.\n    """', 'r"""raw"""', '"""x"""'])
+                    if self.shapes and r.random() < 0.12:  # docstrings that are not ONE string token alone on its line
+                        self.used.add("compound-docstring")
+                        d = r.choice(['"a" "b"', '("d")', '"d"; pass', "'a' \\\n" + prefix(it[1]) + "    'b'", '("""a\n' + 'b""")', '"d";'])
+                    elif r.random() < 0.35:  # a trailing comment after the docstring (one-line or multi-line)
+                        self.used.add("docstring-then-comment")
+                        d += r.choice(["  # c", " #", "\t# lorem ipsum", "  # paroxython"])
                     lines.append(prefix(it[1]) + d)
                 continue
             lines += self.noise_lines(it[1], level)
+            if it[0] == "raw":  # a comment line of the core, verbatim in both layouts
+                lines.append(prefix(it[1]) + it[2])
+                continue
             if it[0] == "hint":
                 marker = r.choice(["#paroxython:", "#  Paroxython  :  ", "# PAROXYTHON :", "#\tparoxython:\t"]) if variant and level > 0 else "# paroxython: "
                 lines.append(prefix(it[1]) + marker + it[2])
@@ -1136,7 +1159,50 @@ def n_continuation_col0(src):
     return "\n".join(lines), True
 
 
+def n_compound_docstring(src):
+    """F39: a docstring-like statement that is not ONE string token alone on its logical line (implicit
+    concatenation, parentheses, `;`): rewrite the statements of that logical line one per line, the docstring
+    as a lone `"d"` (same tree, string contents aside)."""
+    try:
+        tree = ast.parse(src)
+    except (SyntaxError, ValueError):
+        return src, False
+    lines = src.split("\n")
+    edits = []
+    for node in ast.walk(tree):
+        for f in ("body", "orelse", "finalbody"):
+            b = getattr(node, f, None)
+            if not (isinstance(b, list) and b and isinstance(b[0], ast.stmt)):
+                continue
+            for st in b:
+                if not is_docstring_like(st):
+                    continue
+                group = [x for x in b if x.lineno <= st.end_lineno and x.end_lineno >= st.lineno]
+                first, last = min(x.lineno for x in group), max(x.end_lineno for x in group)
+                seg = "\n".join(lines[first - 1:last])
+                toks, exc = real_tokens(seg.lstrip(" \t"))
+                kinds = [k for k, *_ in toks if k not in ("COMMENT", "NL") and _[0] != ""] if not exc else None
+                if kinds in (["STRING", "NEWLINE"], ["STRING"]):
+                    continue  # the plain form
+                if not all(isinstance(x, ast.Pass) or is_docstring_like(x) for x in group):
+                    continue
+                if lines[first - 1][:min(x.col_offset for x in group if x.lineno == first)].strip(" \t(") != "":
+                    continue  # shares its line with something else (`def f(): "d"`)
+                indent = lines[first - 1][:len(lines[first - 1]) - len(lines[first - 1].lstrip(" \t"))]
+                while last < len(lines) and lines[last - 1].rstrip().endswith("\\"):
+                    last += 1
+                new = [indent + ('"d"' if is_docstring_like(x) else "pass") for x in group]
+                if (first, last, new) not in edits:
+                    edits.append((first, last, new))
+    if not edits:
+        return src, False
+    for first, last, new in sorted(edits, reverse=True):
+        lines[first - 1:last] = new
+    return "\n".join(lines), True
+
+
 NEUTRALISERS = [
+    ("C13:docstring-not-a-lone-string-token", n_compound_docstring),
     # No finding of C13 is open: nothing is explained away. (The neutralisers of the repaired findings — F08,
     # F18, F19, F20, F21, F22, F23, F33 — are kept above for reference but deliberately NOT consulted.)
 ]
@@ -1276,6 +1342,25 @@ def property_stream(ctx, drv, stream, cases, seen_sigs):
             if outs[0] != outs[1]:
                 ctx.cov["disagreements_checked"] += 1
                 ctx.dist(f"{stream}:fails:invariant-under-noise")
+                explained = None
+                for sig, fn in NEUTRALISERS:
+                    src2, ch = fn(src)
+                    if ch and valid(src2) and not clauses(drv, src2)[0] and call(CLEAN, src2).get("ok") == outs[1]:
+                        explained = (sig, src2)
+                        break
+                if explained:
+                    sig = explained[0]
+                    ctx.dist(f"{stream}:known:{sig}")
+                    if sig not in seen_sigs:
+                        seen_sigs.add(sig)
+                        ctx.violations.append({
+                            "what": f"{sig}: cleaning is not invariant under insertion of a docstring",
+                            "name": sig.split(":")[1][:40],
+                            "replay": {"kind": "program-pair", "origin": origin, "source": src, "bare": bare,
+                                       "cleaned": outs[0], "cleaned_bare": outs[1], "neutralised": explained[1]},
+                            "signature": sig,
+                        })
+                    continue
                 ctx.violations.append({
                     "what": "cleaning is not invariant under insertion of comments / blank lines / docstrings",
                     "replay": {"kind": "program-pair", "origin": origin, "source": src, "bare": bare,
@@ -1286,6 +1371,10 @@ def property_stream(ctx, drv, stream, cases, seen_sigs):
 
 
 HAND_PICKED = [
+    'def f():\n    "doc" # c\n    return 1\n', 'def f():\n    "doc" # paroxython: foo\n    return 1\n',
+    'def f():\n    """Lorem.\n\n    Ipsum.\n    """  # c\n    return 1\n', 'def f(): "d"\n', '# x # paroxython: foo\ny = 1\n',
+    'def f():\n    pass; pass\n    x = 1\n', 'def f():\n    "d" # c\n', 'class A:\n    "doc"  # c\n\n    # d\n    x = 1\n',
+    'def f():\n    "a" "b"\n    return 1\n', 'def f():\n    ("d")\n    return 1\n', 'def f():\n    "d"; x = 1\n    return x\n',
     'def countdown(n):\n  \twhile n:\n  \t  \tprint(n)\n  \t  \tn -= 1\n  \treturn n\ncountdown(3)\n',
     'if x:\n\ty = 1\n\tz = 2\n', 'if x:\n\t y = 1\n\t z = 2\nw = 3\n', 'for i in a:\n \tif i:\n \t \tb = 1\n \t \tc = 2\n \td = 3\n',
     's = "a\tb"\nt = 1\t+\t2\nu\t=\t[\n\t1,\t# c\n  \t2,\n]\n', 'class A:\n\tdef f(self):\n\t    """doc"""\n\t    return 1\n\tx = 2\n',
@@ -1356,10 +1445,10 @@ def run(ctx):
         generated = []
         for i in range(600 if quick else 5000):
             core_items = gen.program()
-            used = set(gen.used)
             level = ctx.rng.choice([0.2, 0.4, 0.6])
             noisy = gen.render(core_items, level, variant=True)
             bare = gen.render(core_items, 0)
+            used = set(gen.used)
             generated.append((f"generated:{i}", noisy, bare, used))
         malformed = []
         pool = [s for _, s in corpus_programs[:60]] + [g[1] for g in generated[:200]] + HAND_PICKED
